@@ -263,6 +263,13 @@ def _ops():
     op("seg.length", (2, 3), ("s0",), lambda s: s.length)
     op("seg.midpoint", (2, 3), ("s0",), lambda s: s.midpoint)
     op("seg.intersect(seg)", (2,), ("s0", "s1"), lambda s, o: s.intersect(o), cmp="multiset", coll=False)
+    def _touching(a, b, b2):
+        # two segments of one line that share exactly the end point b; the second one is built from another object b2 for the same point
+        na, nb = np.asarray(a.normalized_array), np.asarray(b.normalized_array)
+        far = Point(np.append(2 * nb[:-1] - na[:-1], 1.0))
+        return Segment(a, b).intersect(Segment(b2, far))
+
+    op("seg.intersect(collinear seg touching in an end point)", (2, 3), ("p0", "p1", "p1"), _touching, cmp="multiset", coll=False)
     op("seg.intersect(l)", (2,), ("s0", "l2"), lambda s, o: s.intersect(o), cmp="multiset", coll=False)
     op("seg.intersect(e)", (3,), ("s1", "e0"), lambda s, o: s.intersect(o), cmp="multiset", coll=False)
     op("polygon.contains(in)", (2, 3), ("g0", "gin"), lambda g, x: g.contains(x))
